@@ -18,7 +18,8 @@ The static side of C01: `tc`, an *algorithmic* checker that transcribes what myp
 Results other than `ok`:
   `type k`        a diagnostic mypy reports (k only tells the rules apart)
   `unsupported k` the program leaves the fragment whose rules are transcribed here (ad-hoc intersections,
-                  truthiness/`==`/literal narrowing, unreachable right operands, implicit attribute definitions);
+                  truthiness/`==`/literal narrowing, repeated truthiness tests of one local, unreachable right operands, implicit
+                  attribute definitions);
                   the generator never emits such programs
   `hole k`        mypy accepts, but by a rule that is known to be unsound — `tc` refuses so that `soundness`
                   is a theorem: 1 = assignment to an attribute through a union receiver is checked against the
@@ -529,6 +530,32 @@ def tcS : Nat → Ctx → Option Env → Stmt → TC SRes
 
 /-! ## Definitions -/
 
+/-- locals whose truthiness a condition tests (`x`, `not x`, operands of and/or) -/
+def truthVarsE : Expr → List Nat
+  | .var x => [x]
+  | .not e => truthVarsE e
+  | .and a b => truthVarsE a ++ truthVarsE b
+  | .or a b => truthVarsE a ++ truthVarsE b
+  | _ => []
+
+/-- (local, inside a loop?) for every truthiness test of a statement -/
+def truthVarsS : Bool → Stmt → List (Nat × Bool)
+  | l, .ite c t e => (truthVarsE c).map (·, l) ++ truthVarsS l t ++ truthVarsS l e
+  | _, .while c b => (truthVarsE c).map (·, true) ++ truthVarsS true b
+  | l, .seq a b => truthVarsS l a ++ truthVarsS l b
+  | _, _ => []
+
+def nodupNat : List Nat → Bool
+  | [] => true
+  | x :: r => !r.contains x && nodupNat r
+
+/-- mypy remembers the outcome of a truthiness test in `can_be_true` / `can_be_false` flags of the narrowed type,
+    which the displayed type does not show and which decide the reachability of a *later* truthiness test of the
+    same local.  The fragment therefore allows one truthiness test per local and function, outside loops. -/
+def truthTestsOk (s : Stmt) : Bool :=
+  let l := truthVarsS false s
+  nodupNat (l.map (·.1)) && l.all fun p => !p.2
+
 def tcFuel : Nat := 4096
 
 /-- a function or method body: parameters typed as declared, falling off the end only in `-> None` -/
@@ -538,6 +565,7 @@ def selfTys : Option Nat → List Ty
 
 def tcFunc (P : Prog) (self : Option Nat) (fd : FuncDef) : TC Recs := do
   let r ← tcS tcFuel { P := P, decl := selfTys self ++ fd.params ++ fd.locals, ret := fd.ret, self := self } (some []) fd.body
+  req (truthTestsOk fd.body) (.unsupported 8)
   req (r.brks.isEmpty && r.conts.isEmpty) (.type 13)          -- 'break' / 'continue' outside loop
   match r.out with
   | none => pure r.recs
